@@ -51,9 +51,6 @@ template<class Archive> void serialize(Archive& ar, Triv& t, unsigned /*version*
 template<class Archive> void serialize(Archive& ar, StrElem& t, unsigned /*version*/) { ar& boost::serialization::make_nvp("s", t.s); }
 template<class Archive> void serialize(Archive& ar, NestElem& t, unsigned /*version*/) { ar& boost::serialization::make_nvp("a", t.a); }
 
-template<int D, class A, std::size_t... I> void reindex_all_impl(A& a, int base, std::index_sequence<I...>) { a.reindex(((void)I, static_cast<boost::multi::index>(base))...); }
-template<int D, class A> void reindex_all(A& a, int base) { reindex_all_impl<D>(a, base, std::make_index_sequence<D>{}); }
-
 template<class Obj> void save_object(std::vector<char>& bytes, int arch, Obj& obj) {
 	membuf       mb(&bytes, 0);
 	std::ostream os(&mb);
